@@ -804,11 +804,17 @@ impl Grammar {
                 let mut rhs = Vec::with_capacity(rule.rhs.len());
                 for s in &rule.rhs {
                     if let Some(repl) = repl.get(&s.0) {
-                        assert!(s.1.is_null() || s.1.is_self_ref());
-                        rhs.extend(
-                            repl.iter()
-                                .map(|r| (outp.copy_from(self, r.0), r.1.clone())),
-                        );
+                        if s.1.is_null() || s.1.is_self_ref() {
+                            rhs.extend(
+                                repl.iter()
+                                    .map(|r| (outp.copy_from(self, r.0), r.1.clone())),
+                            );
+                        } else {
+                            // only plain aliases (`sym::_ : trg::_`) can be referenced with a
+                            // parameter expression; the expression carries over to the target
+                            assert!(repl.len() == 1 && repl[0].1.is_self_ref());
+                            rhs.push((outp.copy_from(self, repl[0].0), s.1.clone()));
+                        }
                     } else {
                         rhs.push((outp.copy_from(self, s.0), s.1.clone()));
                     }
